@@ -798,6 +798,8 @@ class Interp:
             for d in n.get('decls', []):
                 if 'init' in d:
                     v = self.eval(fn, S[d['init']], env)
+                    if isinstance(v, list) and not d.get('ref') and 'vector' in d.get('type', '') and '*' not in d.get('type', ''):
+                        v = list(v)          # a vector declared by value is a copy of its initialiser
                 else:
                     v = UNKNOWN
                 env[d['did']] = v
